@@ -87,11 +87,17 @@ func TestVerifC09Stack(t *testing.T) {
 			go func() {
 				errC <- l.Listen(ctx, func(msg message) error { delivered++; return nil })
 			}()
-			<-conn.done
-			cancel()
-			<-errC
 			name := fmt.Sprintf("%d x %s", n, kind)
 			r.Case(name, true)
+			select {
+			case <-conn.done:
+				cancel()
+				<-errC
+			case err := <-errC:
+				cancel()
+				r.Violation("C09:depth:listener-stopped", fmt.Sprintf("%s: the listener stopped (%v) after reading %d of %d messages", name, err, len(conn.depths), n+1), nil)
+				continue
+			}
 			if delivered != 1 {
 				r.Violation("C09:depth:delivery", fmt.Sprintf("%s: %d messages delivered, want exactly the valid one", name, delivered), nil)
 			}
